@@ -247,6 +247,11 @@ let () =
                   bad := true;
                   verdict_bad c i "prop" ("equivalent aag / aig files do not parse to the same problem: " ^ res))
               | 'V' -> if handle_varint c i opl res then bad := true
+              | 'S' ->
+                stat "stack_probes" 1;
+                if res <> "OK" then (
+                  bad := true;
+                  verdict_bad c i "prop" ("valid input of large nesting / chain depth: " ^ res))
               | 'A' -> if C18p.handle_a c i opl res then bad := true
               | 'D' -> C18p.handle_d res
               | 'N' -> if C18p.handle_n c i opl res then bad := true
